@@ -177,7 +177,7 @@ def createTask (e : Env) (l : Ledger) (s : State) (contract function : String) (
     match findTask s key with
     | some t => if Gen.Oracle.ctNotClosed t.closing e.h then err "oracle:task-not-closed" else .ok (delTask s key)
     | none => .ok s
-  match pre with
+  match (if Gen.Oracle.ctBadWait window then err "oracle:invalid-wait" else pre) with
   | .error x => .error x
   | .ok s0 =>
     let closing := Gen.Oracle.ctClosingBlock e.h window
@@ -207,14 +207,11 @@ def deleteTask (e : Env) (s : State) (contract function : String) (force : Bool)
     else if Gen.Oracle.rmNotCreator t.creator deleter then err "oracle:not-creator"
     else .ok (delTask s (contract ++ function))
 
-/-- `GetCollateralAmount`: the amount of the *first* coin of the stored collateral;
-    indexing an empty collateral panics. `none` = not an operator. -/
-def collateralAmount (s : State) (a : Addr) : Except Err (Option Int) :=
+/-- `GetCollateralAmount`: the operator's collateral in the bond denomination. `none` = not an operator. -/
+def collateralAmount (bond : Denom) (s : State) (a : Addr) : Except Err (Option Int) :=
   match findOp s a with
   | none => .ok none
-  | some o => match Coins.canon o.coll with
-    | [] => panicE "oracle:GetCollateralAmount-empty"
-    | c :: _ => .ok (some c.2)
+  | some o => .ok (some (Gen.Oracle.collWeight (Coins.amountOf o.coll bond)))
 
 structure Agg where
   result : Int
@@ -222,23 +219,25 @@ structure Agg where
   minC : Int
   rs : List Response
 
-def aggFold (s : State) : List Response → Agg → Except Err Agg
+def aggFold (bond : Denom) (s : State) : List Response → Agg → Except Err Agg
   | [], a => .ok a
   | r :: rest, a =>
-    match collateralAmount s r.op with
+    match collateralAmount bond s r.op with
     | .error x => .error x
-    | .ok none => aggFold s rest { a with rs := a.rs ++ [r] }
+    | .ok none => aggFold bond s rest { a with rs := a.rs ++ [r] }
     | .ok (some amt) =>
-      aggFold s rest { result := Gen.Oracle.aggAccum a.result r.score amt, total := a.total + amt,
-                       minC := if Gen.Oracle.aggIsMinScore r.score then a.minC + amt else a.minC,
-                       rs := a.rs ++ [{ r with weight := amt }] }
+      let a' : Agg :=
+        { result := Gen.Oracle.aggAccum a.result r.score amt, total := a.total + amt,
+          minC := if Gen.Oracle.aggIsMinScore r.score then a.minC + amt else a.minC,
+          rs := a.rs ++ [{ r with weight := amt }] }
+      aggFold bond s rest a'
 
-def aggregate (s : State) (key : String) : Except Err State :=
+def aggregate (bond : Denom) (s : State) (key : String) : Except Err State :=
   match findTask s key with
   | none => err "oracle:no-task"
   | some t =>
     if Gen.Oracle.aggPending t.status then err "oracle:task-closed"
-    else match aggFold s t.responses { result := Gen.Oracle.aggInit s.params.aggRes, total := 0, minC := 0, rs := [] } with
+    else match aggFold bond s t.responses { result := Gen.Oracle.aggInit s.params.aggRes, total := 0, minC := 0, rs := [] } with
     | .error x => .error x
     | .ok a =>
       if Gen.Oracle.aggHasCollateral a.total then
@@ -246,7 +245,7 @@ def aggregate (s : State) (key : String) : Except Err State :=
           .ok (setTask s { t with responses := a.rs.map (fun r => if r.score == Gen.Oracle.minScore then r else { r with weight := 0 }),
                                   result := Gen.Oracle.aggMinResult a.minC, status := 2 })
         else .ok (setTask s { t with responses := a.rs, result := Gen.Oracle.aggMean a.result a.total, status := 2 })
-      else .ok (setTask s { t with responses := a.rs, result := a.result, status := 3 })
+      else .ok (setTask s { t with responses := a.rs, result := Gen.Oracle.aggFailResult s.params.aggRes, status := 3 })
 
 
 /-- which branch of TotalValidTaskCollateral / DistributeBounty applies: 0 min-score, 1 below threshold, 2 otherwise -/
@@ -260,8 +259,8 @@ def eligible (s : State) (b : Nat) (r : Response) : Bool :=
   | _ => Gen.Oracle.tvEligHigh r.score s.params.threshold
 
 /-- the weight of an eligible response (`none`: responder is no longer an operator); sdk.Int.Quo panics on zero -/
-def respWeight (s : State) (b : Nat) (r : Response) : Except Err (Option Int) :=
-  match collateralAmount s r.op with
+def respWeight (bond : Denom) (s : State) (b : Nat) (r : Response) : Except Err (Option Int) :=
+  match collateralAmount bond s r.op with
   | .error x => .error x
   | .ok none => .ok none
   | .ok (some c) =>
@@ -272,15 +271,15 @@ def respWeight (s : State) (b : Nat) (r : Response) : Except Err (Option Int) :=
     | _ => if 100 - r.score + s.params.eps2 == 0 then panicE "oracle:quo-zero-eps2"
            else .ok (some (Gen.Oracle.tvWeightHigh c r.score s.params.eps2))
 
-def totalValid (s : State) (b : Nat) : List Response → Int → Except Err Int
+def totalValid (bond : Denom) (s : State) (b : Nat) : List Response → Int → Except Err Int
   | [], acc => .ok acc
   | r :: rest, acc =>
     if eligible s b r then
-      match respWeight s b r with
+      match respWeight bond s b r with
       | .error x => .error x
-      | .ok none => totalValid s b rest acc
-      | .ok (some w) => totalValid s b rest (acc + w)
-    else totalValid s b rest acc
+      | .ok none => totalValid bond s b rest acc
+      | .ok (some w) => totalValid bond s b rest (acc + w)
+    else totalValid bond s b rest acc
 
 /-- branch selection and eligibility as written in DistributeBounty (a second copy in the source) -/
 def branchDB (s : State) (t : Task) : Nat :=
@@ -293,8 +292,8 @@ def eligibleDB (s : State) (b : Nat) (r : Response) : Bool :=
   | _ => Gen.Oracle.dbEligHigh r.score s.params.threshold
 
 /-- the reward of one eligible responder for one bounty coin -/
-def payAmount (s : State) (b : Nat) (amount tv : Int) (r : Response) : Except Err (Option Int) :=
-  match collateralAmount s r.op with
+def payAmount (bond : Denom) (s : State) (b : Nat) (amount tv : Int) (r : Response) : Except Err (Option Int) :=
+  match collateralAmount bond s r.op with
   | .error x => .error x
   | .ok none => .ok none
   | .ok (some c) =>
@@ -306,62 +305,62 @@ def payAmount (s : State) (b : Nat) (amount tv : Int) (r : Response) : Except Er
            else .ok (some (Gen.Oracle.dbAmountHigh amount c r.score s.params.eps2 tv))
 
 /-- one bounty coin over the responses; returns updated state (rewards credited) and responses -/
-def payCoin (b : Nat) (denom : Denom) (amount tv : Int) :
+def payCoin (bond : Denom) (b : Nat) (denom : Denom) (amount tv : Int) :
     State → List Response → List Response → Except Err (State × List Response)
   | s, [], done => .ok (s, done)
   | s, r :: rest, done =>
     if eligibleDB s b r then
-      match payAmount s b amount tv r with
+      match payAmount bond s b amount tv r with
       | .error x => .error x
-      | .ok none => payCoin b denom amount tv s rest (done ++ [r])
+      | .ok none => payCoin bond b denom amount tv s rest (done ++ [r])
       | .ok (some amt) =>
         if amt < 0 then panicE "oracle:negative-coin"
         else
           let reward : Coins := if amt == 0 then [] else [(denom, amt)]
           match findOp s r.op with
-          | none => payCoin b denom amount tv s rest (done ++ [r])
+          | none => payCoin bond b denom amount tv s rest (done ++ [r])
           | some o =>
             let s' := setOp s { o with rew := Coins.add o.rew reward }
-            payCoin b denom amount tv s' rest (done ++ [{ r with reward := reward }])
-    else payCoin b denom amount tv s rest (done ++ [r])
+            payCoin bond b denom amount tv s' rest (done ++ [{ r with reward := reward }])
+    else payCoin bond b denom amount tv s rest (done ++ [r])
 
-def payAll (b : Nat) (tv : Int) : List (Denom × Int) → State → List Response → Except Err (State × List Response)
+def payAll (bond : Denom) (b : Nat) (tv : Int) : List (Denom × Int) → State → List Response → Except Err (State × List Response)
   | [], s, rs => .ok (s, rs)
   | c :: cs, s, rs =>
-    match payCoin b c.1 c.2 tv s rs [] with
+    match payCoin bond b c.1 c.2 tv s rs [] with
     | .error x => .error x
-    | .ok (s', rs') => payAll b tv cs s' rs'
+    | .ok (s', rs') => payAll bond b tv cs s' rs'
 
-def distributeBounty (s : State) (t : Task) : Except Err State :=
-  match totalValid s (branch s t) t.responses 0 with
+def distributeBounty (bond : Denom) (s : State) (t : Task) : Except Err State :=
+  match totalValid bond s (branch s t) t.responses 0 with
   | .error x => .error x
   | .ok tv =>
     if Gen.Oracle.dbNoValid tv then err "oracle:task-failed"
-    else match payAll (branchDB s t) tv (Coins.canon t.bounty) s t.responses with
+    else match payAll bond (branchDB s t) tv (Coins.canon t.bounty) s t.responses with
     | .error x => .error x
     | .ok (s', rs) => .ok (setTask s' { t with responses := rs })
 
 /-- a non-panic error is `continue` in the end-blocker; a panic halts the chain -/
-def endOne (s : State) (id : String × String) : Except Err State :=
+def endOne (bond : Denom) (s : State) (id : String × String) : Except Err State :=
   let key := id.1 ++ id.2
-  match aggregate s key with
+  match aggregate bond s key with
   | .error x => if x.isPanic then .error x else .ok s
   | .ok s1 =>
     match findTask s1 key with
     | none => .ok s1
     | some t =>
-      match distributeBounty s1 t with
+      match distributeBounty bond s1 t with
       | .error x => if x.isPanic then .error x else .ok s1
       | .ok s2 => .ok s2
 
-def endFold : List (String × String) → State → Except Err State
+def endFold (bond : Denom) : List (String × String) → State → Except Err State
   | [], s => .ok s
-  | id :: ids, s => match endOne s id with
+  | id :: ids, s => match endOne bond s id with
     | .error x => .error x
-    | .ok s' => endFold ids s'
+    | .ok s' => endFold bond ids s'
 
 def endBlock (e : Env) (s : State) : Except Err State :=
-  match endFold (closingAt s e.h) s with
+  match endFold e.bond (closingAt s e.h) s with
   | .error x => .error x
   | .ok s' => .ok (delClosing s' e.h)
 
